@@ -17,7 +17,18 @@ func MakeVirtualHostBucketAddressingMiddleware(baseEndpoint string, next http.Ha
 		if hostname != baseEndpoint && strings.HasSuffix(hostname, endpointSuffix) {
 			bucket := strings.TrimSuffix(hostname, endpointSuffix)
 			if bucket != "" {
-				r.URL.Path = strings.TrimSuffix("/"+bucket+r.URL.Path, "/")
+				if r.URL.Path == "" || r.URL.Path == "/" {
+					// Bucket-level request: "/" addresses the bucket itself.
+					r.URL.Path = "/" + bucket
+					r.URL.RawPath = ""
+				} else {
+					// Object-level request: keep the key exactly as sent, including a
+					// trailing "/" and the escaped form (e.g. "%2F") of the path.
+					r.URL.Path = "/" + bucket + r.URL.Path
+					if r.URL.RawPath != "" {
+						r.URL.RawPath = "/" + bucket + r.URL.RawPath
+					}
+				}
 			}
 		}
 		next.ServeHTTP(w, r)
